@@ -38,6 +38,7 @@ from deep.processor.context.callback_context import CallbackContext
 from deep.processor.context.trigger_context import TriggerContext
 from deep.push import PushService
 from deep.thread_local import ThreadLocal
+from deep.utils import str2bool
 
 if TYPE_CHECKING:
     from deep.processor.context.action_context import ActionContext
@@ -135,6 +136,10 @@ class TriggerHandler:
         self._config.add_listener(TracepointHandlerUpdateListener(self))
         self._callbacks: ThreadLocal[Deque[CallbackContext]] = ThreadLocal(self.__new_pending)
 
+    def __no_trace(self) -> bool:
+        # the setting is text when it comes from the environment: 'false' is not 'disabled'
+        return str2bool(str(self._config.NO_TRACE))
+
     def __new_pending(self) -> Deque[CallbackContext]:
         pending = deque()
         # (those that are gone are dropped here, not by a callback of the reference: that would run at any moment, also
@@ -148,7 +153,7 @@ class TriggerHandler:
         self.__shutdown = False
         # if we call settrace we cannot use debugger,
         # so we allow the settrace to be disabled, so we can at least debug around it
-        if self._config.NO_TRACE:
+        if self.__no_trace():
             return
         # remembered here: this is looked at on every trace event after shutdown, where we must not go through the
         # config (an unknown key is logged, and we may be called from inside the logging module)
@@ -243,7 +248,7 @@ class TriggerHandler:
             # a config update that was still queued when we were shut down must not bring the tracepoints back
             return
         self._tp_config = new_config
-        if len(new_config) > 0 and self.__hooks_installed and not self._config.NO_TRACE:
+        if len(new_config) > 0 and self.__hooks_installed and not self.__no_trace():
             # (an agent that has not been started acts nowhere: it does not reach into the calls in progress either)
             self.__trace_running_calls()
 
